@@ -4,7 +4,7 @@ CONSTANTS
   Socks <- MCSocks
   MaxConns = 2
   MaxBytes = 0
-  MaxDrops = 0
+  MaxDrops = 1
   MaxOps = 2
   MaxAccepts = 3
 CHECK_DEADLOCK FALSE
